@@ -717,7 +717,9 @@ def late_handle(P, E):
                 if a.bb not in src.reachable_from(e.bb):
                     continue
                 r.instance((owner, "LH1"), True, "emission bb%d before attach bb%d" % (e.bb, a.bb))
-                ok = any(g["true"] in dom[a.bb] and e.bb in dom[g["switch"]] and src.pred[g["true"]] == [g["switch"]] for g in gates)
+                # every path from the emission to the attach runs over the subscribed edge of a re-check
+                ok = any(src.pred[g["true"]] == [g["switch"]] and g["true"] != g["false"]
+                         and Effects.path_avoiding(src, [a.bb], [g["true"]], start=e.bb) is None for g in gates)
                 if not ok:
                     r.violate((owner, "attach after hand-over without liveness check"),
                               "the subscriber is handed the recorded value and then attached to the live subject without "
